@@ -37,6 +37,8 @@ import (
 	utilerrors "k8s.io/apimachinery/pkg/util/errors"
 	"k8s.io/apimachinery/pkg/util/validation/field"
 	"k8s.io/apiserver/pkg/admission"
+	"k8s.io/apiserver/pkg/authentication/user"
+	"k8s.io/apiserver/pkg/authorization/authorizer"
 	"k8s.io/client-go/kubernetes"
 	"k8s.io/client-go/rest"
 	"k8s.io/client-go/tools/cache"
@@ -142,6 +144,13 @@ type c16Err struct {
 	Detail string `json:"detail"`
 }
 
+// what a request that only policy j's rules match gets from the real ClusterInfo.MatchAttributes
+type c16Pol struct {
+	Matched   bool `json:"matched"`    // the picker returned belongs to a policy (ErrNoRouterRuleMatches otherwise)
+	Known     int  `json:"known"`      // how many of the picker's upstreams are endpoints the ClusterInfo knows (Endpoints.Load)
+	FCDefault bool `json:"fc_default"` // the picker's flow control is the system default
+}
+
 type c16Obs struct {
 	Facts    c16Facts `json:"facts"`
 	Validate string   `json:"validate"` // ok (returned a list) | panic
@@ -150,6 +159,7 @@ type c16Obs struct {
 	AdmitN   int      `json:"admit_n"`
 	AdmitGat bool     `json:"admit_gate_err"`
 	Create   string   `json:"create"` // ok | err | panic
+	Pols     []c16Pol `json:"pols"`   // per dispatch policy, on the ClusterInfo that was created (nil if none)
 	Ctrl     string   `json:"ctrl"`   // ok | err | panic
 	Lim      string   `json:"lim"`    // ok | err | panic
 }
@@ -259,7 +269,7 @@ func buildObject(c *c16Case) *proxyv1alpha1.UpstreamCluster {
 		o.Spec.FlowControl.Schemas = append(o.Spec.FlowControl.Schemas, fs)
 	}
 	o.Spec.Logging.Mode = proxyv1alpha1.LogMode(c.Logging)
-	for _, p := range c.Policies {
+	for j, p := range c.Policies {
 		dp := proxyv1alpha1.DispatchPolicy{
 			Strategy:              proxyv1alpha1.Strategy(p.Strategy),
 			UpstreamSubset:        p.Subset,
@@ -268,7 +278,7 @@ func buildObject(c *c16Case) *proxyv1alpha1.UpstreamCluster {
 		}
 		for i := 0; i < p.Rules; i++ {
 			dp.Rules = append(dp.Rules, proxyv1alpha1.DispatchPolicyRule{
-				Verbs: []string{"*"}, APIGroups: []string{"*"}, Resources: []string{"*"}})
+				Verbs: []string{"*"}, APIGroups: []string{"*"}, Resources: []string{fmt.Sprintf("r%d", j)}})
 		}
 		o.Spec.DispatchPolicies = append(o.Spec.DispatchPolicies, dp)
 	}
@@ -400,8 +410,26 @@ func single(obj *proxyv1alpha1.UpstreamCluster) c16Obs {
 	obs.Create = outcome(func() error {
 		info, err := clusters.CreateClusterInfo(obj.DeepCopy(), nil, "", nil)
 		if info != nil {
-			clusters.VerifC16StopFlowControls(info)
-			info.Stop()
+			defer func() {
+				clusters.VerifC16StopFlowControls(info)
+				info.Stop()
+			}()
+			obs.Pols = []c16Pol{}
+			for j := range obj.Spec.DispatchPolicies {
+				pv := c16Pol{}
+				attrs := authorizer.AttributesRecord{User: &user.DefaultInfo{Name: "someone"}, Verb: "get", APIGroup: "",
+					APIVersion: "v1", Resource: fmt.Sprintf("r%d", j), ResourceRequest: true, Path: "/api/v1/r"}
+				if picker, perr := info.MatchAttributes(attrs); perr == nil {
+					pv.Matched = true
+					for _, u := range clusters.VerifPickerUpstreams(picker) {
+						if _, ok := info.Endpoints.Load(u); ok {
+							pv.Known++
+						}
+					}
+					pv.FCDefault = picker.FlowControl() == flowcontrol.DefaultFlowControl
+				}
+				obs.Pols = append(obs.Pols, pv)
+			}
 		}
 		return err
 	})
